@@ -1,5 +1,5 @@
 (* C16 — parts of the full statement that are false of the faithful model. *)
-From Coq Require Import String List Bool ZArith.
+From Coq Require Import String List Bool ZArith Permutation.
 Import ListNotations.
 Require Import V.Lib.PyStr V.Lib.JTree V.Memo.Model.
 Open Scope string_scope.
@@ -47,3 +47,19 @@ Theorem C16_folder_copy_refuted :
   forall md5 fuzzy ph ph', info_of md5 fuzzy ph c = info_of md5 fuzzy ph' c /\ info_of md5 fuzzy ph c <> None.
 Proof. intros c md5 fuzzy ph ph'. destruct fuzzy; vm_compute; split; congruence. Qed.
 Print Assumptions C16_folder_copy_refuted.
+
+(* Without the shape of the entries ([wf_files]) the concatenation the hash sees does not determine the file
+   list: the hypothesis of C16_files_determined / C16_exactly_when is necessary.  (The code only produces
+   well-formed entries — C16_files_wellformed — so this is not a finding.) *)
+Theorem C16_files_concat_refuted :
+  let i  := {| i_files := ["ab"; "c"]; i_exe := "cat"; i_args := "-n"; i_image := None |} in
+  let i' := {| i_files := ["a"; "bc"]; i_exe := "cat"; i_args := "-n"; i_image := None |} in
+  unambiguousb i = true /\ unambiguousb i' = true /\ serialise i = serialise i' /\
+  (forall md5, hash_info md5 i = hash_info md5 i') /\ ~ Permutation (i_files i) (i_files i') /\
+  wf_files (i_files i) = false.
+Proof.
+  cbv zeta. repeat split; try (vm_compute; reflexivity).
+  intros P. apply (Permutation_in "ab") in P; [|left; reflexivity].
+  cbn in P. destruct P as [P|[P|[]]]; discriminate P.
+Qed.
+Print Assumptions C16_files_concat_refuted.
